@@ -28,16 +28,23 @@ def run(tier, v):
                 cuts = sorted(rng.sample(range(1, n), min(k - 1, n - 1)))
                 parts.append([b - a for a, b in zip([0] + cuts, cuts + [n])])
             parts.append([n])
+            # a used extractor: it was fed the first k octets of a connection that ended there (inside the preface, after it, inside a
+            # frame header, a header without its payload, one whole frame, everything) and reset(); then this connection, whole or in two
+            base = 24 if o["preface"] else 0
+            pres = sorted({k for k in (1, base, base + 5, base + 9, (o["ends"][0] if o["ends"] else n), n) if 0 < k <= n})
+            reuse = [{"pre": k, "cs": cs} for k in pres for cs in ([n], [min(base + 9, n - 1), n - min(base + 9, n - 1)])] if i % (1 if tier == "thorough" else 7) == 0 else []
+            o["reuse"] = reuse
             o["parts"] = parts
             o["fpl"] = [o["fps"][str(k)] for k in range(len(o["ends"]) + 1)]
             exp[i] = o
-            f.write(json.dumps({"id": i, "op": "akamai", "bytes": bytes(o["bytes"]).hex(), "parts": parts}) + "\n")
+            f.write(json.dumps({"id": i, "op": "akamai", "bytes": bytes(o["bytes"]).hex(), "parts": parts + reuse}) + "\n")
         r = vlib.tlc("MC_C17", pid=PID, workers=8, tag_sink=sink, timeout=3000, heap="10g", coverage=False)
     out = os.path.join(wd, "observed.ndjson")
     vlib.run_hv("http", vec, out)
     trace = os.path.join(wd, "trace.ndjson")
     n_one = n_parts = n_fp = 0
     rowinfo = {}
+    reused = {}
     samples = []
     with open(trace, "w") as f:
         for o in vlib.read_ndjson(out):
@@ -57,9 +64,13 @@ def run(tier, v):
                     v.violation({"part": "one-shot hash", "fingerprint": want[0], "expected": h, "observed": one["hash"]})
                 if len(samples) < 3 and n_one % 97 == 1:
                     samples.append({"frames": e["kinds"], "preface": e["preface"], "fingerprint": want[0], "hash": h})
-            for pi, (cs, po) in enumerate(zip(e["parts"], o["parts"])):
+            for pi, (cs, po) in enumerate(zip(e["parts"] + e["reuse"], o["parts"])):
                 n_parts += 1
                 rid = "%d.%d" % (o["id"], pi)
+                used = None
+                if isinstance(cs, dict):
+                    used, cs = cs["pre"], cs["cs"]
+                    reused[rid] = used
                 outs = []
                 for x in po["outs"]:
                     outs.append([x["fp"]] if x["r"] == "some" else (["!" + x["r"]] if x["r"] in ("panic", "err") else []))
@@ -80,7 +91,7 @@ def run(tier, v):
     for b in r2.lines.get("BAD", []):
         i, cs = rowinfo[b["id"]]
         e = exp[i]
-        v.violation({"part": "incremental", "frames": e["kinds"], "preface": e["preface"], "frame_end_offsets": e["ends"], "bytes": bytes(e["bytes"]).hex(), "chunks": cs,
+        v.violation({"part": "incremental" if b["id"] not in reused else "incremental, on an extractor that was given the first %d octets of another connection and then reset()" % reused[b["id"]], "frames": e["kinds"], "preface": e["preface"], "frame_end_offsets": e["ends"], "bytes": bytes(e["bytes"]).hex(), "chunks": cs,
                      "expected_return_per_chunk": b["want"], "observed_return_per_chunk": b["got"], "get_fingerprint_afterwards": b["final"]})
     return v.finish("model_checking", {
         "states": r.distinct + r2.distinct, "transitions": r.generated + r2.generated, "traces_validated_against_impl": n_parts + n_one,
